@@ -82,7 +82,8 @@ class Strings:
 
 
 WORDS = ['alpha', 'beta', 'gamma', 'com.apple.xpc', 'launchd', 'kernel', 'Safari', '/usr/libexec/tccd', 'proc',
-         'wifid', 'error %d', '%{public}s', 'café', '日本', 'x', '', 'default', 'state %lu']
+         'wifid', 'error %d', '%{public}s', 'café', '日本', 'x', '', 'default', 'state %lu', '123', '456', '0', '1',
+         'com.apple.WebKit', 'com.apple.WebKit.WebContent', 'com.apple.WebKit.Networking']
 
 
 # what a string table may hold at the EDGES of a text: terminators a producer kept, blanks, control and invisible characters
